@@ -25,6 +25,7 @@ RULE = (
     "the 1-1e-8 quantile, judged with DKW bands at 1e-12; (iform) transformed IFORM contours: every point against the exact Rosenblatt image within the DKW band of the "
     "documented sample size, and two constructions with the same random_state bitwise equal. Non-trivial = conditioning value outside the central 90% or a statistical "
     "comparison with n >= 1e5; distinct = (model coefficients, operation, conditioning value, seed)."
+    ' Also: seeded samples above 1e6 rows; cache-use + parameter-change history; pooled conditional samples of 1, 2, 4, 10 draws per call; empirical_cdf between two seeded contours.'
 )
 ASSUMPTIONS = [
     "exact conditional and joint laws of the Hs-steepness structure from the reference model (refmodel.py) and scipy.integrate.quad",
